@@ -12,7 +12,7 @@ SParseDemands(e, r) ==
     <<"C03.value",    (IsOk(r) /\ e.ok) => VerOf(e.v) = r.v>>,
     <<"C03.reject",   IsFail(r) => ~e.ok>>,
     <<"C03.zero",     (~e.ok /\ ~e.panic) => e.zero>>,
-    <<"C03.typed",    (IsFail(r) /\ ~e.ok /\ ~e.panic) => e.typed>>,
+    <<"C03.typed",    (IsFail(r) /\ ~e.ok) => e.typed>>,
     <<"C03.reproduce", (IsOk(r) /\ e.ok) => (IF tag THEN e.strtag = e.in ELSE e.str = e.in)>>,
     <<"C03.format",   (IsOk(r) /\ e.ok) => (e.str = FmtSem(r.v, FALSE) /\ e.strtag = FmtSem(r.v, TRUE))>>,
     <<"C18.toolong",  (IsFail(r) /\ ~e.ok /\ ~e.panic) => SentinelsOK(r, e.is)>>,
